@@ -47,7 +47,8 @@ func generateContCfgForIPVlan(cfg *types.SetupConfig, link netlink.Link) *nic.Co
 	var neighs []*netlink.Neigh
 	var sysctl map[string][]string
 
-	if cfg.MultiNetwork {
+	// the oif rule is an ipv4 rule, a pod without ipv4 gets none
+	if cfg.MultiNetwork && cfg.ContainerIPNet.IPv4 != nil {
 		table := utils.GetRouteTableID(link.Attrs().Index)
 
 		ruleIf := netlink.NewRule()
